@@ -178,7 +178,7 @@ def run_shard(shard, tier, acc):
                 acc.nontriv(tuple(grp.gens))
             if len(forms) > 1:
                 ex = list(forms.values())[:2]
-                acc.violation("canonical", "canonical_form", "depends-on-generating-set", {"n": n, "a": ex[0].strings(), "b": ex[1].strings()},
+                acc.violation("canonical", "canonical_form", "depends-on-generating-set", {"n": n, "a": ex[0].strings(), "b": ex[1].strings(), "check": "canonical"},
                               "one form per state", len(forms))
             for k in forms:
                 acc.state(("canon", n, core.h64(k[0] + k[1])))
@@ -195,28 +195,7 @@ def run_shard(shard, tier, acc):
             for j in range(len(st)):
                 ga = pres[i][(i + j) % 6]
                 gb = pres[j][(2 * i + j + 1) % 6]
-                case = {"n": n, "a": ga.strings(), "b": gb.strings()}
-                acc.evaluations += 2
-                sa = Stabilizer(gq.group_to_clifford_tableau(ga))
-                sb = Stabilizer(gq.group_to_clifford_tableau(gb))
-                try:
-                    eq = bool(sa == sb)
-                    if eq != (i == j):
-                        acc.violation("eq", "Stabilizer.__eq__", "equality-wrong", case, i == j, eq)
-                except Exception as e:
-                    acc.violation("eq", "Stabilizer.__eq__", "raises-" + type(e).__name__, case, i == j, repr(e)[:200])
-                want = 1 - sv.overlap2(vec(n, i), vec(n, j))
-                try:
-                    tgt = QuantumState(gq.group_to_clifford_tableau(ga), rep_type="s")
-                    stt = QuantumState(gq.group_to_clifford_tableau(gb), rep_type="s")
-                    inf = Infidelity(tgt).evaluate(stt, None)
-                    if abs(inf - want) > 1e-9:
-                        acc.violation("infidelity", "Infidelity.evaluate", "infidelity-wrong", case, want, float(inf))
-                    if not gq.tableau_group(stt.rep_data.data).same_state(gb) or not gq.tableau_group(tgt.rep_data.data).same_state(ga):
-                        acc.violation("infidelity", "Infidelity.evaluate", "input-state-changed", case, "unchanged", "changed")
-                except Exception as e:
-                    acc.violation("infidelity", "Infidelity.evaluate", "raises-" + type(e).__name__, case, want, repr(e)[:200])
-                acc.validated += 1
+                case = eq_case(acc, ga, gb, i == j, 1 - sv.overlap2(vec(n, i), vec(n, j)))
                 acc.nontriv(("eq", tuple(ga.gens), tuple(gb.gens)))
                 acc.state(("eq", i == j))
         acc.sample(case)
@@ -253,6 +232,34 @@ def run_shard(shard, tier, acc):
                     fid_check(acc, gb, ga, vec(n, j), vec(n, i), dict(case, swapped=True), tb, ta)
 
 
+def eq_case(acc, ga, gb, same, want):
+    from graphiq.backends.stabilizer.state import Stabilizer
+    from graphiq.state import QuantumState
+    from graphiq.metrics import Infidelity
+    case = {"n": ga.n, "a": ga.strings(), "b": gb.strings(), "check": "eq"}
+    acc.evaluations += 2
+    sa = Stabilizer(gq.group_to_clifford_tableau(ga))
+    sb = Stabilizer(gq.group_to_clifford_tableau(gb))
+    try:
+        eq = bool(sa == sb)
+        if eq != (same):
+            acc.violation("eq", "Stabilizer.__eq__", "equality-wrong", case, same, eq)
+    except Exception as e:
+        acc.violation("eq", "Stabilizer.__eq__", "raises-" + type(e).__name__, case, same, repr(e)[:200])
+    try:
+        tgt = QuantumState(gq.group_to_clifford_tableau(ga), rep_type="s")
+        stt = QuantumState(gq.group_to_clifford_tableau(gb), rep_type="s")
+        inf = Infidelity(tgt).evaluate(stt, None)
+        if abs(inf - want) > 1e-9:
+            acc.violation("infidelity", "Infidelity.evaluate", "infidelity-wrong", case, want, float(inf))
+        if not gq.tableau_group(stt.rep_data.data).same_state(gb) or not gq.tableau_group(tgt.rep_data.data).same_state(ga):
+            acc.violation("infidelity", "Infidelity.evaluate", "input-state-changed", case, "unchanged", "changed")
+    except Exception as e:
+        acc.violation("infidelity", "Infidelity.evaluate", "raises-" + type(e).__name__, case, want, repr(e)[:200])
+    acc.validated += 1
+    return case
+
+
 def replay_case(case, acc):
     ga = P.StabGroup.from_strings(case["a"]) if "a" in case else None
     if "gens" in case:
@@ -263,6 +270,15 @@ def replay_case(case, acc):
             acc.violation("canonical", "canonical_form", "canonical-form-is-another-state", case, grp.strings(), gq.tableau_group(c).strings())
         return
     gb = P.StabGroup.from_strings(case["b"])
+    if case.get("check") == "canonical":
+        from graphiq.backends.stabilizer.functions.stabilizer import canonical_form
+        ca, cb = (canonical_form(gq.group_to_stabilizer_tableau(g)) for g in (ga, gb))
+        if not (np.array_equal(ca.table, cb.table) and np.array_equal(ca.phase, cb.phase)):
+            acc.violation("canonical", "canonical_form", "depends-on-generating-set", case, "one form per state", 2)
+        return
+    if case.get("check") == "eq":
+        eq_case(acc, ga, gb, ga.same_state(gb), 1 - sv.overlap2(ga.vector(), gb.vector()))
+        return
     if case.get("swapped"):
         ga, gb = gb, ga
     fid_check(acc, ga, gb, ga.vector(), gb.vector(), case)
